@@ -219,11 +219,15 @@ func scaleFixed(ctx context.Context, desc string, tc *typeComponent, f *big.Floa
 	return i, nil
 }
 
-func encodeFixed(ctx context.Context, desc string, tc *typeComponent, f *big.Float) (data []byte, dynamic bool, err error) {
+func encodeFixed(ctx context.Context, desc string, tc *typeComponent, f *big.Float, signed bool) (data []byte, dynamic bool, err error) {
 	// Encoded as X * 10**N integer
 	i, err := scaleFixed(ctx, desc, tc, f)
 	if err != nil {
 		return nil, false, err
+	}
+	if !signed {
+		// ufixed<M>x<N> is encoded as a uint256: all M bits hold the value, and a negative value is invalid
+		return encodeABIUnsignedInteger(ctx, desc, tc, i)
 	}
 	return encodeABISignedInteger(ctx, desc, tc, i.Abs(i))
 }
@@ -233,7 +237,7 @@ func encodeABISignedFloat(ctx context.Context, desc string, tc *typeComponent, v
 	if !ok {
 		return nil, false, i18n.NewError(ctx, signermsgs.MsgWrongTypeComponentABIEncode, "*big.Float", value, desc)
 	}
-	return encodeFixed(ctx, desc, tc, f)
+	return encodeFixed(ctx, desc, tc, f, true)
 }
 
 func encodeABIUnsignedFloat(ctx context.Context, desc string, tc *typeComponent, value interface{}) (data []byte, dynamic bool, err error) {
@@ -241,5 +245,5 @@ func encodeABIUnsignedFloat(ctx context.Context, desc string, tc *typeComponent,
 	if !ok {
 		return nil, false, i18n.NewError(ctx, signermsgs.MsgWrongTypeComponentABIEncode, "*big.Float", value, desc)
 	}
-	return encodeFixed(ctx, desc, tc, f)
+	return encodeFixed(ctx, desc, tc, f, false)
 }
